@@ -105,6 +105,57 @@ class Rec:
     def __truediv__(self, o):
         return self._binop(o, np.divide)
 
+    def __rsub__(self, o):
+        return np.subtract(o, self.read())
+
+    def __rtruediv__(self, o):
+        return np.divide(o, self.read())
+
+    def __pow__(self, o):
+        return self._binop(o, np.power)
+
+    def __rpow__(self, o):
+        return np.power(o, self.read())
+
+    def __neg__(self):
+        return -self.read()
+
+    def __lt__(self, o):
+        return self._binop(o, np.less)
+
+    def __le__(self, o):
+        return self._binop(o, np.less_equal)
+
+    def __gt__(self, o):
+        return self._binop(o, np.greater)
+
+    def __ge__(self, o):
+        return self._binop(o, np.greater_equal)
+
+    def __matmul__(self, o):
+        return self._binop(o, np.matmul)
+
+    def __rmatmul__(self, o):
+        return np.matmul(o, self.read())
+
+    def __iter__(self):
+        for k in range(len(self.data)):
+            yield self[k]
+
+    @property
+    def dtype(self):
+        return self.data.dtype
+
+    @property
+    def T(self):
+        return Rec(self.name, self.data.T, self.ids.T)
+
+    def copy(self):
+        return self.read()
+
+    def sum(self, *a, **k):
+        return self.read().sum(*a, **k)
+
     def _inplace(self, other, op):
         if isinstance(other, Rec):
             other = other.read()
